@@ -109,6 +109,10 @@ def cases(tier, seed):
                     out.append(c)
                     if rep % 4 == 1:
                         out.append(dict(c, counts=True, scales=False, const=None, thr=1.0, k=10))
+    # many permutations in one call (thousands of draws from one stream): a paired and an unpaired run
+    for paired in (True, False):
+        out.append({'n': 5, 'nx': 4, 'ny': 4, 'tail': 'both', 'paired': paired, 'ds': seed + 77, 'edges': [(0, 1, 1), (1, 2, 1), (2, 3, 1)], 'effect': 4.0,
+                    'k': 9000 if thorough else 4400, 'thr': 1.5, 'rs': seed * 100 + 77, 'const': None, 'const_same': True, 'scales': False})
     return out
 
 
@@ -243,6 +247,7 @@ def run(case, bct, REC):
         else:
             # sound-but-weaker fallback: every null value must be a possible maximal component size (0..m)
             REC.tag(PROP, 'history_shape_unexpected:fallback')
+            REC.tag(PROP, 'INCONCLUSIVE:nbs_bct drew its relabellings in an unexpected pattern (not one draw per permutation): the null values could not be replayed')
             REC.check(PROP, 'nbs_bct', 'null_in_range', bool(np.all((null >= 0) & (null <= m) & (null == np.round(null)))), det)
     # ---- metamorphic
     part = observed_partition(adj) if adj.shape == (n, n) else None
